@@ -61,4 +61,32 @@ theorem heading_buckets_match_source :
       (270, "Bottom"), (297, "BottomRight"), (315, "BottomRight")] := by
   decide
 
+/-! ### signal levels and fragment ranks -/
+
+def Signal.sourceName : Signal → String
+  | .faint => "Faint" | .weak => "Weak" | .medium => "Medium" | .strong => "Strong"
+
+/-- the model's `Signal.intensity` is the source's `Signal::intensity`, arm by arm; the comparison of
+`line_overlap_with_signal` is `signal >= required`, and the three overlap predicates of the table
+conditions ask for Medium, Strong and Weak (the levels the table translator writes into `Cond.overlap`) -/
+theorem signal_levels_match_source :
+    ([Signal.faint, .weak, .medium, .strong].all fun s =>
+      Gen.signalIntensity.lookup s.sourceName == some s.intensity) = true ∧
+    Gen.signalIntensity.length = 4 ∧
+    Gen.overlapComparison = "signal >= required" ∧
+    Gen.overlapLevels = [("line_overlap", "Medium"), ("line_strongly_overlap", "Strong"),
+      ("line_weakly_overlap", "Weak")] := by
+  decide
+
+/-- the variant name of a fragment in `fragment.rs` -/
+def Frag.sourceKind : Frag → String
+  | .line .. => "Line" | .markerLine .. => "MarkerLine" | .circle .. => "Circle" | .arc .. => "Arc"
+  | .polygon .. => "Polygon" | .rect .. => "Rect" | .text .. => "Text" | .cellText .. => "CellText"
+
+/-- the model's `Frag.rank` (the tie-break of the fragment order across kinds) is the source's
+`Fragment::rank`, for every kind of fragment -/
+theorem fragment_ranks_match_source (f : Frag) :
+    Gen.fragmentRank.lookup f.sourceKind = some f.rank ∧ Gen.fragmentRank.length = 8 := by
+  cases f <;> simp only [Frag.sourceKind, Frag.rank] <;> exact ⟨by decide, by decide⟩
+
 end Svgbob
